@@ -310,7 +310,10 @@ func genC08Index(g *gen) {
 				return true
 			})
 			if outer == nil {
-				fail("%s: indexCache.get: no `before, ok := %s.modtimes[..]`", indexGo, recv)
+				// a differently shaped local branch is a changed shape (c08_source_shape_keys_and_index_cache fails),
+				// not a broken translator: other properties' checks are not affected
+				modKeys = append(modKeys, "other:no lookup in "+recv+".modtimes")
+				cond = "other:no lookup in " + recv + ".modtimes"
 			} else {
 				ast.Inspect(outer, func(n ast.Node) bool {
 					if c, ok := n.(*ast.CallExpr); ok && len(c.Args) >= 1 {
